@@ -39,19 +39,23 @@ def extendRight (idx : List Int) (be : Int) : Nat → Nat → Nat
     let j := cur + 1
     if rowStart idx j > be then cur else extendRight idx be fuel j
 
-/-- `while isinstance(rows[i], Gap): i += 1` with Python indexing (IndexError past the end). -/
-def skipGapsRight (rows : List Row) : Nat → Int → R Int
-  | 0, _ => .error .index
-  | fuel + 1, i => do
-    let r ← pyGet rows i
-    if r.isGap then skipGapsRight rows fuel (i + 1) else pure i
+/-- `while i <= j and isinstance(rows[i], Gap): i += 1` (Python indexing kept: an out-of-range read would raise) -/
+def skipGapsRight (rows : List Row) : Nat → Int → Int → R Int
+  | 0, _, _ => .error .index
+  | fuel + 1, i, j =>
+    if i ≤ j then do
+      let r ← pyGet rows i
+      if r.isGap then skipGapsRight rows fuel (i + 1) j else pure i
+    else pure i
 
-/-- `while isinstance(rows[j], Gap): j -= 1` — negative `j` wraps around like Python. -/
-def skipGapsLeft (rows : List Row) : Nat → Int → R Int
-  | 0, _ => .error .index
-  | fuel + 1, j => do
-    let r ← pyGet rows j
-    if r.isGap then skipGapsLeft rows fuel (j - 1) else pure j
+/-- `while j >= i and isinstance(rows[j], Gap): j -= 1` -/
+def skipGapsLeft (rows : List Row) : Nat → Int → Int → R Int
+  | 0, _, _ => .error .index
+  | fuel + 1, i, j =>
+    if j ≥ i then do
+      let r ← pyGet rows j
+      if r.isGap then skipGapsLeft rows fuel i (j - 1) else pure j
+    else pure j
 
 /-- mutable `OverlapResult`: the bait, the covered span, the rows, and the labels put on it. -/
 structure OverlapResult where
@@ -82,9 +86,9 @@ def findOverlaps (rows : List Row) (bait : Fragment) : R (Option OverlapResult) 
     | some ovr => do
       let iOvr := extendLeft idx bait.start ovr ovr
       let jOvr := extendRight idx bait.stop (idx.length - (ovr + 1)) ovr
-      -- the two loops can each take at most len(rows)+1 steps before raising or stopping
-      let i ← skipGapsRight rows (rows.length + 2) iOvr
-      let j ← skipGapsLeft rows (2 * rows.length + 2) jOvr
+      -- each loop takes at most len(rows)+1 steps
+      let i ← skipGapsRight rows (rows.length + 2) iOvr jOvr
+      let j ← skipGapsLeft rows (rows.length + 2) i jOvr
       if ¬ (i ≤ j) then pure none
       else
         let ovl := pySlice rows i (j + 1)
